@@ -31,6 +31,7 @@ class Rule:
         self.mnem, self.opds, self.opcode, self.opbits = mnem, opds, opcode, opbits
         self.seps = seps or [", "] * len(opds)      # separator in front of operand k >= 1
         self.family = family                        # rules of one family share the shape and differ in one typed width
+        self.lseps = None                           # separators used when a line is written for this rule (default: seps)
 
     def size(self):
         return self.opbits + sum(o.size() for o in self.opds)
@@ -149,7 +150,15 @@ def gen_rules(rng, families=False, prodref=False):
             k = rng.choice(lits)
             opds2 = list(r.opds)
             opds2[k] = Opd("typed", "u", 8, wrap=r.opds[k].wrap)
-            r2 = Rule(r.mnem, opds2, rng.randrange(1 << r.opbits), r.opbits, r.seps)
+            seps2 = r.seps
+            if rng.random() < 0.6:
+                # the expression rule spells more blanks in its pattern (a pattern blank requires a blank in the
+                # line, it is not a literal character: the rule that spells the operand literally must still win);
+                # lines written for the literal rule carry those blanks too, so that both rules match them
+                rich = {", ": " , ", ",": rng.choice([" ,", " , "]), " - ": " - ", " + ": " + "}
+                seps2 = [rich.get(x, x) for x in r.seps]
+                r.lseps = seps2
+            r2 = Rule(r.mnem, opds2, rng.randrange(1 << r.opbits), r.opbits, seps2)
             r2.opbits += (-r2.size()) % 8
             r2.opcode = rng.randrange(1 << r2.opbits)
             if r2.shape() not in shapes:
@@ -475,7 +484,7 @@ def render(p, rng=None, case=None, blanks=None, comment=None, rule_order=None, b
                 t = render_value(spec, lm, rng)
                 if spec[0] == "text":
                     t = case(t)
-                sp = r.seps[k] if k else ""
+                sp = (r.lseps or r.seps)[k] if k else ""
                 if blanks and k:
                     # a blank that the pattern spells is required; elsewhere blanks are optional
                     sp = blanks(1 if sp.startswith(" ") else 0) + sp.strip() + blanks(1 if sp.endswith(" ") else 0)
